@@ -208,8 +208,10 @@ void Symmetrizer::compute(bool ignore_symmetries)
                 unsigned short Spin = IndexInfo.getInfo(i).Spin;
                 if ( Spin == up ) SpinUpIndices.push_back(i);
             }
-            Operator op_sz = Pomerol::OperatorPresets::Sz(IndexSize, SpinUpIndices);
-            if (this->checkSymmetry(op_sz)) INFO("[ H ," << op_sz << " ]=0");
+            if (2*SpinUpIndices.size() == IndexSize) { // Sz is defined for equal numbers of up and down indices
+                Operator op_sz = Pomerol::OperatorPresets::Sz(IndexSize, SpinUpIndices);
+                if (this->checkSymmetry(op_sz)) INFO("[ H ," << op_sz << " ]=0");
+            }
         };
     };
 
